@@ -1,0 +1,12 @@
+//go:build verif
+// +build verif
+
+package mem
+
+import "github.com/hack-pad/hackpadfs/keyvalue"
+
+// NewStoreForVerif returns the package's real in-memory store, so a verification harness can
+// wrap it (yield points, fault injection) and run keyvalue.FS or raw transactions on top of it.
+func NewStoreForVerif() keyvalue.TransactionStore {
+	return newStore()
+}
